@@ -48,8 +48,10 @@ class StmtMixin:
             st.env[t.id] = val
             yield None, st
         elif isinstance(t, (ast.Tuple, ast.List)):
-            if isinstance(val, tuple) and val[0] == "tuple" and len(val[1]) == len(t.elts):
+            if isinstance(val, tuple) and val[0] in ("tuple", "list") and len(val[1]) == len(t.elts):
                 parts = list(val[1])
+            elif is_const(val) and isinstance(val[1], (tuple, list)) and len(val[1]) == len(t.elts):
+                parts = [const(x) for x in val[1]]
             else:
                 parts = [("unk", "unpack:%s" % ast.unparse(e)) if not (isinstance(val, tuple) and val[0] == "call")
                          else ("item", val, i) for i, e in enumerate(t.elts)]
